@@ -30,8 +30,25 @@ const (
 
 var UTC = time.UTC
 
-func Now() Time                                { return time.Now() }
-func Since(t Time) Duration                    { return time.Since(t) }
+// NowHook, when set by a harness, replaces the wall clock of instrumented packages by a harness-owned
+// logical clock (whose reads are visible operations of the scheduler, see h/citer). Nil = wall clock.
+var NowHook func() Time
+
+func Now() Time {
+	if h := NowHook; h != nil {
+		return h()
+	}
+	return time.Now()
+}
+func Since(t Time) Duration {
+	if NowHook != nil {
+		return Now().Sub(t)
+	}
+	return time.Since(t)
+}
+
+// After is passed through (a native timer channel; not modelled — no scheduler harness runs code that waits on it).
+func After(d Duration) <-chan Time             { return time.After(d) }
 func Until(t Time) Duration                    { return time.Until(t) }
 func Unix(s, ns int64) Time                    { return time.Unix(s, ns) }
 func ParseDuration(s string) (Duration, error) { return time.ParseDuration(s) }
